@@ -388,8 +388,8 @@ class GlobalOpt(Position):
         s, = strings
         return ("global_options([%s, '-DG=1'], lang='c')\n"
                 "global_link_options([%s, '-Wl,-g'])\n"
-                "executable('c0', ['main.c'], compile_options=['-DL=1'], "
-                "link_options=['-Wl,-l'])\n" % (py(s), py(s)))
+                "executable('c0', ['main.c'], compile_options=['-DL=1', '-DG=1'], "
+                "link_options=['-Wl,-l', '-Wl,-g'])\n" % (py(s), py(s)))
 
     def targets(self, strings):
         return ['c0']
@@ -401,7 +401,8 @@ class GlobalOpt(Position):
                 [_strip_link(x['argv'], 'c0') for x in l])
 
     def expected(self, s):
-        return ([[s, '-DG=1', '-DL=1']], [[s, '-Wl,-g', '-Wl,-l']])
+        # the per-target options repeat a global word: every occurrence must arrive
+        return ([[s, '-DG=1', '-DL=1', '-DG=1']], [[s, '-Wl,-g', '-Wl,-l', '-Wl,-g']])
 
 
 def sh_enc(s):
